@@ -305,6 +305,8 @@ def parse_result(lines):
             r["span"] = None if p[1] == "none" else (unhx(p[1]), unhx(p[2]))
         elif p[0] == "sol":
             r.setdefault("sol", []).append((unhx(p[1]), p[2], [unhx(x) for x in p[3].split(",")] if len(p) > 3 else None))
+        elif p[0] == "selfsol":
+            r["selfsol"] = (int(p[1].split("=")[1]), unhx(p[2].split("=")[1]))
         elif p[0] in ("panic", "error"):
             r["status"] = p[0]
         elif p[0].endswith("call"):
